@@ -104,9 +104,10 @@ structure Pair (s u : Engine) (g : Graph) : Prop where
   quiet : Quiet s
   segs : SegsOK s
   base : LabelsBase s.idmap
+  root : RootOK s
 
 theorem Pair.empty : Pair {} {} {} :=
-  ⟨Eqv.refl _ _, Sim.empty, Rec.empty, Quiet.empty, ⟨rfl, (fun g h => nomatch h), List.nodup_nil⟩, rfl⟩
+  ⟨Eqv.refl _ _, Sim.empty, Rec.empty, Quiet.empty, ⟨rfl, (fun g h => nomatch h), List.nodup_nil⟩, rfl, RootOK.empty'⟩
 
 /-- a committed transaction without label operations -/
 theorem Pair.commit {s u : Engine} {g : Graph} (h : Pair s u g) (ops : List TxOp)
@@ -146,7 +147,8 @@ theorem Pair.commit {s u : Engine} {g : Graph} (h : Pair s u g) (ops : List TxOp
     unfold runTx
     simp only [if_true]
     rw [hst, commit_ok_eq Cfg.current _ _ _ hcommit.1]
-  refine ⟨hE', hS', by rw [hrun]; exact hcommit.2, by rw [hrun]; exact hq', ?_, ?_⟩
+  refine ⟨hE', hS', by rw [hrun]; exact hcommit.2, by rw [hrun]; exact hq', ?_, ?_,
+    runTx_rootOK Cfg.current h.root ops true⟩
   · rw [hrun]
     have hbs : SFrame s st.1 := SFrame.trans (b := s.beginWrite.1) ⟨rfl, rfl, rfl, rfl⟩ hsf
     exact ⟨by show st.1.segStore = st.1.segs; rw [hbs.segStore, hbs.segs]; exact h.segs.store,
@@ -169,7 +171,8 @@ theorem Pair.abort {s u : Engine} {g : Graph} (h : Pair s u g) (ops : List TxOp)
   have hsf : SFrame s (runTx Cfg.current s ops false) :=
     SFrame.trans (b := s.beginWrite.1) ⟨rfl, rfl, rfl, rfl⟩ (fold_sframe Cfg.current ops s.beginWrite)
   refine ⟨hE', tx_abort Cfg.current h.sim ops hb, tx_abort_rec Cfg.current h.recv ops,
-    Quiet.fold Cfg.current ops s.beginWrite (h.quiet.congr rfl rfl rfl rfl), ?_, ?_⟩
+    Quiet.fold Cfg.current ops s.beginWrite (h.quiet.congr rfl rfl rfl rfl), ?_, ?_,
+    runTx_rootOK Cfg.current h.root ops false⟩
   · exact ⟨by rw [hsf.segStore, hsf.segs]; exact h.segs.store,
       by intro g' hg'; rw [hsf.nextSegId]; exact h.segs.lt g' (by rw [hsf.segs] at hg'; exact hg'),
       by rw [hsf.segs]; exact h.segs.nodup⟩
@@ -180,7 +183,8 @@ theorem Pair.abort {s u : Engine} {g : Graph} (h : Pair s u g) (ops : List TxOp)
 theorem Pair.compact {s u : Engine} {g : Graph} (h : Pair s u g)
     (hs : compactSafe Cfg.current s = true) : Pair (s.compact Cfg.current) u g := by
   obtain ⟨hR, hQ⟩ := Rec.compact Cfg.current h.recv h.quiet h.base
-  refine ⟨compact_eqv Cfg.current (by decide) (by decide) h.eqv hs, h.sim, hR, hQ, h.segs.compact Cfg.current, ?_⟩
+  refine ⟨compact_eqv Cfg.current (by decide) (by decide) (by decide) h.eqv h.root hs, h.sim, hR, hQ,
+    h.segs.compact Cfg.current, ?_, h.root.compact Cfg.current (by decide)⟩
   have : (s.compact Cfg.current).idmap = s.idmap := by unfold Engine.compact; split <;> rfl
   rw [this]; exact h.base
 
@@ -188,20 +192,23 @@ theorem Pair.compact {s u : Engine} {g : Graph} (h : Pair s u g)
 theorem reopen_pair {s0 s u : Engine} {g : Graph} (h : Pair s u g)
     (hR : Rec s0) (hQ : Quiet s0) (hK : SegsOK s0)
     (e1 : s0.idmap = s.idmap) (e2 : s0.segs = s.segs) (e3 : s0.store = s.store) (e4 : s0.propsRoot = s.propsRoot)
-    (e5 : s0.interner = s.interner) (e6 : s0.vecs = s.vecs) (e7 : s0.runs = s.runs) :
+    (e5 : s0.interner = s.interner) (e6 : s0.vecs = s.vecs) (e7 : s0.runs = s.runs)
+    (e8 : s0.storeRoot = s.storeRoot) :
     ∃ s', s0.reopen = .ok s' ∧ Pair s' u g := by
   have hload : ∀ x, (IdMap.load s0.idmap.i2e).lookup x = s0.idmap.lookup x := by
     intro x
     rw [e1, h.eqv.idmap.i2e, h.eqv.idmap.lookup x]
     exact load_lookup_eq h.sim.L x
-  obtain ⟨s', hopen, r1, r2, r3, r4, r5, r6, _, r8, r9, rid, rE, rR, rlt⟩ := reopen_rec hR hK.find hload
+  obtain ⟨s', hopen, r1, r2, r3, r4, r5, r6, _, r8, r9, rid, rE, rR, rlt, rsr⟩ := reopen_rec hR hK.find hload
   have hid : IdEq s'.idmap s.idmap := by
     rw [rid, ← e1]
     exact ⟨rfl, rfl, hload⟩
   have hE : Eqv Cfg.current s' s :=
-    eqv_runsEq Cfg.current (by rw [← e7]; exact rE) (by rw [r1, e2]) (by rw [r3, e3]) (by rw [r4, e4]) hid
+    eqv_runsEq Cfg.current (by rw [← e7]; exact rE) (by rw [r1, e2]) (by rw [r3, e3]) (by rw [r4, e4])
+      (by rw [rsr, e8]) hid
       (by rw [r5, e5]) (by rw [r6, e6])
-  refine ⟨s', hopen, hE.trans h.eqv, h.sim, rR, ?_, ?_, ?_⟩
+  refine ⟨s', hopen, hE.trans h.eqv, h.sim, rR, ?_, ?_, ?_,
+    ⟨by rw [r4, e4, rsr, e8]; exact h.root.eq, fun h0 => by rw [r3, e3]; exact h.root.empty (by rw [← e4, ← r4]; exact h0)⟩⟩
   · obtain ⟨txs, hb, hq⟩ := hQ.inv
     refine ⟨⟨txs, by rw [r9]; exact hb, ?_⟩⟩
     intro tx htx
@@ -224,7 +231,7 @@ theorem reopen_pair {s0 s u : Engine} {g : Graph} (h : Pair s u g)
     rw [e1]; exact h.base
 
 theorem Pair.reopen {s u : Engine} {g : Graph} (h : Pair s u g) : ∃ s', s.reopen = .ok s' ∧ Pair s' u g :=
-  reopen_pair h h.recv h.quiet h.segs rfl rfl rfl rfl rfl rfl rfl
+  reopen_pair h h.recv h.quiet h.segs rfl rfl rfl rfl rfl rfl rfl rfl
 
 theorem Pair.close {s u : Engine} {g : Graph} (h : Pair s u g) :
     ∃ s', s.checkpointOnClose.reopen = .ok s' ∧ Pair s' u g := by
@@ -241,14 +248,14 @@ theorem Pair.close {s u : Engine} {g : Graph} (h : Pair s u g) :
     have hf : (closedView s).idmap = s.idmap ∧ (closedView s).segs = s.segs ∧ (closedView s).store = s.store ∧
         (closedView s).propsRoot = s.propsRoot ∧ (closedView s).interner = s.interner ∧
         (closedView s).vecs = s.vecs ∧ (closedView s).runs = s.runs ∧ (closedView s).segStore = s.segStore ∧
-        (closedView s).nextSegId = s.nextSegId := by
+        (closedView s).nextSegId = s.nextSegId ∧ (closedView s).storeRoot = s.storeRoot := by
       unfold closedView Engine.checkpointOnClose
       rw [hemp]
-      exact ⟨rfl, rfl, rfl, rfl, rfl, rfl, rfl, rfl, rfl⟩
-    obtain ⟨f1, f2, f3, f4, f5, f6, f7, f8, f9⟩ := hf
+      exact ⟨rfl, rfl, rfl, rfl, rfl, rfl, rfl, rfl, rfl, rfl⟩
+    obtain ⟨f1, f2, f3, f4, f5, f6, f7, f8, f9, f10⟩ := hf
     exact reopen_pair h hR hQ
       ⟨by rw [f8, f2]; exact h.segs.store, by rw [f2, f9]; exact h.segs.lt, by rw [f2]; exact h.segs.nodup⟩
-      f1 f2 f3 f4 f5 f6 f7
+      f1 f2 f3 f4 f5 f6 f7 f10
 
 /-! ### histories -/
 
